@@ -653,7 +653,10 @@ func (g *gen) allCuts(s *Snap, topo uint64) {
 	}
 	for _, base := range [][]byte{full, full[:L-8]} {
 		for k := 1; k <= 16; k++ {
-			for _, fill := range []byte{0x00, 0xff} {
+			for fi, fill := range []byte{0x00, 0xff} {
+				if g.c.Tier == "quick" && fi != k%2 {
+					continue // quick tier: alternate the fill byte instead of both
+				}
 				ext := append(append([]byte{}, base...), bytes.Repeat([]byte{fill}, k)...)
 				exp := "reject"
 				if len(base) == L-8 && k == 8 {
@@ -771,7 +774,7 @@ func main() {
 	}
 
 	// ---- structured snapshots ----------------------------------------------------------
-	n := c.Scale(50, 2500)
+	n := c.Scale(40, 800)
 	for i := 0; i < n; i++ {
 		s := randSnap(r, i%10 == 9)
 		if r.Chance(3, 4) {
@@ -806,7 +809,7 @@ func main() {
 	}
 
 	// ---- single-byte mutations of valid encodings -----------------------------------------
-	n = c.Scale(250, 10000)
+	n = c.Scale(120, 5000)
 	for i := 0; i < n && len(g.valid) > 0; i++ {
 		b := append([]byte{}, g.valid[r.Intn(len(g.valid))]...)
 		if r.Bool() {
@@ -829,7 +832,7 @@ func main() {
 	}
 
 	// ---- random bytes -------------------------------------------------------------------------
-	n = c.Scale(150, 6000)
+	n = c.Scale(150, 3000)
 	for i := 0; i < n; i++ {
 		var b []byte
 		switch r.Intn(4) {
